@@ -9,6 +9,18 @@ PARSE_NOTE = ("Trusted: TLC, the JSON reader, the recorder's verbatim copy of sp
               "length; longer inputs are the repository's own recipes and seeded random splices.")
 
 CHECKS = {
+    "C03": dict(
+        text="The public API is specified as a typestate protocol (spec/CookApi.tla: parse -> result -> scalable -> scaled, "
+             "with the consumers each state allows); TLC enumerates every program of the protocol up to a call bound and "
+             "checks the once-only scaling invariants. Programs (three standard ones covering every consumer, plus the "
+             "TLC-generated ones in rotation) are replayed on the exhaustive short-string corpus of MC_Lexer, the "
+             "repository's recipes, random splices, fence/front-matter, repetition and boundary-metadata families, under "
+             "{none, all, compat} x {empty, bundled}. TLC judges each recorded call sequence against the protocol "
+             "(spec/Trace_Api.tla): every call must be enabled and must RETURN (a panic, failed assertion, overflow or "
+             "watchdog timeout has no transition), and each raw event stream must obey the event grammar.",
+        design="6 (C03), 3.11", technique="TLA+ API typestate model + TLC-generated call programs replayed on exhaustive corpora + trace validation",
+        note="Trusted: TLC, catch_unwind sees every panic (debug assertions and overflow checks on), 10 s watchdog = hang. "
+             "Exhaustive only up to the stated string length."),
     "C04": dict(
         text="The lexer is specified as a token-at-a-time machine (spec/CookLexer.tla); TLC explores it exhaustively over "
              "every string of the 35-symbol token alphabet up to length 3 (4-5 over a reduced alphabet), checking that "
